@@ -234,6 +234,32 @@ func (c *hmapClassifier) classify(n ast.Node) []paths.Event {
 					}
 				}
 			}
+			// slot-pointer unlink: with ref pointing at the slot that holds the entry (the bucket head
+			// or the predecessor's next field), `*ref = e.next` removes e = *ref from its chain
+			if st, ok := ast.Unparen(l).(*ast.StarExpr); ok {
+				if rid, ok := ast.Unparen(st.X).(*ast.Ident); ok {
+					if pt, ok := c.info.TypeOf(rid).(*types.Pointer); ok {
+						if _, ok := pt.Elem().(*types.Pointer); ok {
+							if rsel, ok := ast.Unparen(rr).(*ast.SelectorExpr); ok && isNextField(rsel.Sel.Name) {
+								arg := "slot?"
+								x := ast.Unparen(rsel.X)
+								if id, ok := x.(*ast.Ident); ok {
+									// e := *ref
+									if d := c.localDef(id); d != nil {
+										x = ast.Unparen(d)
+									}
+								}
+								if sx, ok := x.(*ast.StarExpr); ok {
+									if sid, ok := ast.Unparen(sx.X).(*ast.Ident); ok && c.info.ObjectOf(sid) == c.info.ObjectOf(rid) {
+										arg = "slot"
+									}
+								}
+								out = append(out, paths.Event{Kind: "BUCKET_UNLINK", Arg: arg, Pos: v.Pos()})
+							}
+						}
+					}
+				}
+			}
 			if strings.HasSuffix(ls, ".value") || strings.HasSuffix(ls, ".Value") {
 				out = append(out, paths.Event{Kind: "SETVAL", Arg: v.Tok.String(), Pos: v.Pos()})
 			}
@@ -1205,6 +1231,9 @@ func (h *hmapType) checkRemove() {
 			}
 			if isFound(pa) {
 				nf++
+				if pa.HasArg("BUCKET_UNLINK", "slot?") {
+					probs = append(probs, "an entry is unlinked through a slot pointer that is not known to point at it")
+				}
 				if pa.Count("BUCKET_UNLINK") != 1 || pa.Count("DEC") != 1 {
 					probs = append(probs, fmt.Sprintf("found path has %d bucket unlinks and %d size decrements (want 1/1): %s", pa.Count("BUCKET_UNLINK"), pa.Count("DEC"), pa.String()))
 				}
@@ -1212,10 +1241,10 @@ func (h *hmapType) checkRemove() {
 					probs = append(probs, "found entry is not removed from the order list exactly once")
 				}
 				// head unlink iff no predecessor
-				if pa.HasArg("COND", cc(predP, "!=", "nil", true)) && !pa.HasArg("BUCKET_UNLINK", "mid") {
+				if pa.HasArg("COND", cc(predP, "!=", "nil", true)) && !pa.HasArg("BUCKET_UNLINK", "mid") && !pa.HasArg("BUCKET_UNLINK", "slot") {
 					probs = append(probs, "entry with a predecessor is not unlinked through prev.next")
 				}
-				if pa.HasArg("COND", cc(predP, "!=", "nil", false)) && !pa.HasArg("BUCKET_UNLINK", "head") {
+				if pa.HasArg("COND", cc(predP, "!=", "nil", false)) && !pa.HasArg("BUCKET_UNLINK", "head") && !pa.HasArg("BUCKET_UNLINK", "slot") {
 					probs = append(probs, "first entry of a bucket is not unlinked through the table slot")
 				}
 			} else if pa.Has("DEC") || pa.Has("BUCKET_UNLINK") || pa.Has("UNLINK") {
@@ -1509,37 +1538,175 @@ func (h *hmapType) checkRehash() {
 	cl := newHmapClassifier(fi)
 	pos := h.p.Pos(fi.Decl.Pos())
 	var probs []string
-	newCap, thr, reassign := "", "", false
 	var idxKinds []string
 	modOK := true
+	info := fi.Pkg.TypesInfo
+	// the rehash body and the bodies of the unexported helpers it is split into (parameters replaced by
+	// the arguments), so that grown(this.table) reads like code written in place
+	in := newInliner(h.p, fi, nil)
+	bodies := []*ast.BlockStmt{fi.Decl.Body}
+	for k := 0; k < len(bodies) && k < 6; k++ {
+		ast.Inspect(bodies[k], func(n ast.Node) bool {
+			if call, ok := n.(*ast.CallExpr); ok {
+				if b := in.Body(call); b != nil {
+					dup := false
+					for _, x := range bodies {
+						if x == b {
+							dup = true
+						}
+					}
+					if !dup {
+						bodies = append(bodies, b)
+					}
+				}
+			}
+			return true
+		})
+	}
+	// n = the current number of buckets: len(table), also through a local holding the table
+	var bodyOf func(n ast.Node) *ast.BlockStmt
+	bodyOf = func(n ast.Node) *ast.BlockStmt {
+		for _, b := range bodies {
+			if b.Pos() <= n.Pos() && n.End() <= b.End() {
+				return b
+			}
+		}
+		return fi.Decl.Body
+	}
+	isTable := func(e ast.Expr, b *ast.BlockStmt) bool {
+		for d := 0; d < 3; d++ {
+			e = ast.Unparen(e)
+			if cl.norm(e) == "table" {
+				return true
+			}
+			id, ok := e.(*ast.Ident)
+			if !ok {
+				return false
+			}
+			def := localDefIn(info, b, id)
+			if def == nil {
+				return false
+			}
+			e = def
+		}
+		return false
+	}
+	newCapOf := func(e ast.Expr) bool {
+		b := bodyOf(e)
+		f, ok := linearize(info, b, e, func(x ast.Expr) (string, bool) {
+			if call, ok := ast.Unparen(x).(*ast.CallExpr); ok && len(call.Args) == 1 {
+				if id, ok := call.Fun.(*ast.Ident); ok && id.Name == "len" && isTable(call.Args[0], b) {
+					return "n", true
+				}
+			}
+			return "", false
+		})
+		return ok && f.is(map[string]int64{"n": 2, "": 1})
+	}
+	made := map[types.Object]bool{} // locals holding a table made with 2n+1 slots
+	makes, makesOK := 0, true
+	thrOK, reassign := false, false
+	for _, b := range bodies {
+		ast.Inspect(b, func(n ast.Node) bool {
+			as, ok := n.(*ast.AssignStmt)
+			if !ok || len(as.Lhs) != len(as.Rhs) {
+				return true
+			}
+			for i, r := range as.Rhs {
+				if call, ok := ast.Unparen(r).(*ast.CallExpr); ok && len(call.Args) >= 2 {
+					if id, ok := call.Fun.(*ast.Ident); ok && id.Name == "make" {
+						if _, isSlice := info.TypeOf(call).Underlying().(*types.Slice); isSlice {
+							makes++
+							if newCapOf(call.Args[1]) {
+								if lid, ok := as.Lhs[i].(*ast.Ident); ok {
+									made[info.ObjectOf(lid)] = true
+								}
+							} else {
+								makesOK = false
+							}
+						}
+					}
+				}
+			}
+			return true
+		})
+	}
+	// where the new table is installed (this.table = ...): after it, len(this.table) is the NEW capacity
+	installEnd := token.NoPos
 	ast.Inspect(fi.Decl.Body, func(n ast.Node) bool {
-		switch v := n.(type) {
-		case *ast.AssignStmt:
-			if len(v.Lhs) == 1 && len(v.Rhs) == 1 {
-				l, r := cl.norm(v.Lhs[0]), cl.norm(v.Rhs[0])
-				switch {
-				case l == "newCapacity":
-					newCap = r
-				case l == "threshold":
-					thr = r
-				case l == "table":
-					reassign = true
-				}
-			}
-		case *ast.BinaryExpr:
-			if v.Op == token.REM {
-				idxKinds = append(idxKinds, hashExprKind(cl, v.X))
-				if !strings.Contains(cl.norm(v.Y), "newCapacity") {
-					modOK = false
-				}
-			}
+		if as, ok := n.(*ast.AssignStmt); ok && len(as.Lhs) == 1 && cl.norm(as.Lhs[0]) == "table" {
+			installEnd = as.End()
 		}
 		return true
 	})
-	if newCap != "oldCapacity*2+1" {
-		probs = append(probs, "new capacity is `"+newCap+"`, not oldCapacity*2+1")
+	var isNewCap func(e ast.Expr) bool
+	isNewCap = func(e ast.Expr) bool {
+		e = ast.Unparen(stripConvs(info, e))
+		if call, ok := e.(*ast.CallExpr); ok && len(call.Args) == 1 && installEnd.IsValid() && e.Pos() > installEnd && bodyOf(e) == fi.Decl.Body {
+			if id, ok := call.Fun.(*ast.Ident); ok && id.Name == "len" && cl.norm(call.Args[0]) == "table" {
+				return true
+			}
+		}
+		if e.Pos() <= installEnd || !installEnd.IsValid() || bodyOf(e) != fi.Decl.Body {
+			if newCapOf(e) {
+				return true
+			}
+		}
+		if id, ok := e.(*ast.Ident); ok {
+			if d := localDefIn(info, bodyOf(e), id); d != nil {
+				return isNewCap(d)
+			}
+		}
+		if call, ok := e.(*ast.CallExpr); ok && len(call.Args) == 1 {
+			if id, ok := call.Fun.(*ast.Ident); ok && id.Name == "len" {
+				if aid, ok := ast.Unparen(call.Args[0]).(*ast.Ident); ok && made[info.ObjectOf(aid)] {
+					return true
+				}
+			}
+		}
+		return false
 	}
-	if !strings.Contains(thr, "newCapacity") || !strings.Contains(thr, "loadFactor") {
+	mentionsNewCap := func(e ast.Expr) bool {
+		found := false
+		ast.Inspect(e, func(n ast.Node) bool {
+			if x, ok := n.(ast.Expr); ok && !found && isNewCap(x) {
+				found = true
+			}
+			return !found
+		})
+		return found
+	}
+	thr := ""
+	for _, b := range bodies {
+		ast.Inspect(b, func(n ast.Node) bool {
+			switch v := n.(type) {
+			case *ast.AssignStmt:
+				if len(v.Lhs) == 1 && len(v.Rhs) == 1 {
+					switch cl.norm(v.Lhs[0]) {
+					case "threshold":
+						thr = cl.norm(v.Rhs[0])
+						if mentionsNewCap(v.Rhs[0]) && strings.Contains(thr, "loadFactor") {
+							thrOK = true
+						}
+					case "table":
+						reassign = true
+					}
+				}
+			case *ast.BinaryExpr:
+				if v.Op == token.REM {
+					idxKinds = append(idxKinds, hashExprKind(cl, v.X))
+					if !isNewCap(v.Y) {
+						modOK = false
+					}
+				}
+			}
+			return true
+		})
+	}
+	if makes == 0 || !makesOK {
+		probs = append(probs, "the new table is not made with 2*len(table)+1 buckets")
+	}
+	if !thrOK {
 		probs = append(probs, "threshold is not recomputed from the new capacity and the load factor: "+thr)
 	}
 	if !reassign {
@@ -2153,4 +2320,29 @@ func guardOutcome(pa paths.Path, end string, notEqual bool) bool {
 		}
 	}
 	return false
+}
+
+// localDef: the single defining expression (x := <expr>) of a local in the function or the helper
+// bodies followed so far; nil when there is none or more than one.
+func (c *hmapClassifier) localDef(id *ast.Ident) ast.Expr {
+	obj := c.info.ObjectOf(id)
+	var def ast.Expr
+	n := 0
+	for _, body := range append([]*ast.BlockStmt{c.fi.Decl.Body}, c.bodies...) {
+		ast.Inspect(body, func(m ast.Node) bool {
+			if as, ok := m.(*ast.AssignStmt); ok && len(as.Lhs) == len(as.Rhs) {
+				for i, l := range as.Lhs {
+					if lid, ok := l.(*ast.Ident); ok && c.info.ObjectOf(lid) == obj {
+						def = as.Rhs[i]
+						n++
+					}
+				}
+			}
+			return true
+		})
+	}
+	if n == 1 {
+		return def
+	}
+	return nil
 }
